@@ -181,10 +181,10 @@ def gen_scenario(rng, idx):
             "cancel_before": cancel, "cancel_gap_ms": cgap, "settle_ms": settle, "gone_wait_ms": GONE_WAIT_MS}
 
 
-def mk(name, pre, steps, delay=0, stop=-1, cancel=None, cgap=0, settle=None):
+def mk(name, pre, steps, delay=0, stop=-1, cancel=None, cgap=0, settle=None, broken=""):
     n = len(steps)
     cancel = n if cancel is None else cancel
-    return {"name": name, "pre": [{"dir": d, "sub": s, "name": bs(nm), "suid": False} for (d, s, nm) in pre],
+    return {"name": name, "broken": broken, "pre": [{"dir": d, "sub": s, "name": bs(nm), "suid": False} for (d, s, nm) in pre],
             "steps": [{"kind": k, "dir": d, "sub": s, "name": bs(nm), "name2": bs(n2), "gap_ms": g, "size": z}
                       for (k, d, s, nm, n2, g, z) in steps],
             "delay_ms": delay, "stop_read_before": stop, "cancel_before": cancel, "cancel_gap_ms": cgap,
@@ -194,7 +194,12 @@ def mk(name, pre, steps, delay=0, stop=-1, cancel=None, cgap=0, settle=None):
 def corpus():
     """targeted scripts, always run first: one in-place write per watched directory, the three D19 witnesses, a burst"""
     four = [(d, False, "a.toml") for d in range(4)]
-    return [
+    # one of the four watched directories cannot be watched (a dangling symbolic link, absent, a regular file - trees the loader accepts): the
+    # other three are served as always
+    unwatchable = [mk("unwatchable-%d-%s" % (bd, kind), [(d, False, "a.toml") for d in range(4) if d != bd],
+                      [("append", d, False, "a.toml", "", 560, 9) for d in range(4) if d != bd], broken="%d:%s" % (bd, kind))
+                   for bd, kind in ((3, "dangling"), (0, "dangling"), (2, "missing"), (1, "file"), (3, "missing"), (3, "file"))]
+    return unwatchable + [
         mk("four-dirs", four, [("append", d, False, "a.toml", "", 560, 9) for d in (0, 1, 2, 3)]),
         mk("D19a-xtoml", [(1, False, "a.toml"), (1, False, "notes.xtoml"), (2, False, "footoml")],
            [("append", 1, False, "a.toml", "", 100, 5), ("append", 1, False, "notes.xtoml", "", 620, 5),
